@@ -514,8 +514,10 @@ class FJParser(sly.Parser):
         error_occurred = True
 
         if token is None:
+            # the input ended in the middle of a statement/block - report the last line of the file
+            last_line = curr_text.count('\n') + 1
             error_string = (
-                f'Syntax Error in {get_position(self.line_position(None))}. '
+                f'Syntax Error in {get_position(last_line)} (unexpected end of file). '
                 f'Maybe missing }} or {{ before this line?'
             )
         else:
